@@ -91,7 +91,18 @@ func (g *bundleGen) plantPlus() {
 			g.addRootOp("/ptrptr", obj{"$ref": "#/definitions/ptrC/properties/c1"})
 		}
 	}
-	if g.on("plusPtrCycle") {
+	if g.on("plusPtrCycle") && r.P(50) {
+		// rho-shaped chain: a tail that leads into a cycle which does not contain the first pointer
+		g.addRootDef("rhoLoop", obj{"type": "object", "properties": obj{
+			"a": obj{"$ref": "#/definitions/rhoLoop/properties/b"}, "b": obj{"$ref": "#/definitions/rhoLoop/properties/a"}}})
+		g.addRootDef("rhoChain", obj{"type": "object", "properties": obj{"entry": obj{"$ref": "#/definitions/rhoLoop/properties/a"}}})
+		for i := 0; i < r.Range(1, 4); i++ {
+			g.addRootDef(fmt.Sprintf("rhoTail%d", i), obj{"type": "object", "properties": obj{"t": obj{"$ref": "#/definitions/rhoChain/properties/entry"}}})
+		}
+		if r.P(50) {
+			g.addRootOp("/rho", obj{"$ref": "#/definitions/rhoChain/properties/entry"})
+		}
+	} else if g.on("plusPtrCycle") {
 		g.addRootDef("cycA", obj{"type": "object", "properties": obj{"x": obj{"$ref": "#/definitions/cycB/properties/y"}}})
 		g.addRootDef("cycB", obj{"type": "object", "properties": obj{"y": obj{"$ref": "#/definitions/cycA/properties/x"}}})
 		if r.P(50) {
